@@ -8,6 +8,7 @@ from ..astutil import call_name, calls_in, kwarg, unparse
 from ..cfg import CFG, CNode, Edge, LocalDefs, path_text
 from ..index import AnalysisError, ClassInfo, FuncInfo
 from ..inventory import call_sites
+from ..inventory import only_called_from
 from ..report import Ctx
 from ..reqtree import _config_schema, action_routes
 from ..types import func_types
@@ -231,7 +232,7 @@ def r15_1(ctx: Ctx) -> None:
         if unparse(s.recv) != "self":
             continue
         n += 1
-        ok = s.owner in PARTITION_WRITERS[s.attr]
+        ok = s.owner in PARTITION_WRITERS[s.attr] or bool(only_called_from(ix, s.fn, PARTITION_WRITERS[s.attr]))
         ctx.record("R15.1", f"{s.path}::{s.owner}::{s.kind} {s.attr}", s.where, ok,
                    "partition-changing method analysed above" if ok else "writer of a partition dictionary that the typestate analysis does not cover")
     ctx.floor("R15.1", "writers of the partition dictionaries", n, 8)
@@ -259,7 +260,8 @@ def r15_2(ctx: Ctx) -> None:
     for s in stores_to_attr(ix, ["num_file_creations", "num_file_deletions"]):
         if s.fn is None:
             continue
-        ok = s.owner in allowed and (s.kind != "aug" or (isinstance(s.value, ast.Constant) and s.value.value == 1))
+        ok = (s.owner in allowed or bool(only_called_from(ix, s.fn, allowed))) and (
+            s.kind != "aug" or (isinstance(s.value, ast.Constant) and s.value.value == 1))
         ctx.record("R15.2", f"{s.path}::{s.owner}::{s.kind} {s.attr}", s.where, ok,
                    "counter touched only by reset (=0) and create/delete/copy/move (+1)" if ok else "unexpected writer or step of a per-tick counter")
 
